@@ -15,6 +15,7 @@ import (
 	"sort"
 	"strconv"
 	"strings"
+	"sync"
 
 	"github.com/feichai0017/NoKV/kv"
 	"github.com/feichai0017/NoKV/utils"
@@ -25,7 +26,8 @@ import (
 
 // Client op syntax:
 //   set:<cf>:<key>:<kind>        plain Set; kind s=small inline, b=big (value log), e=empty value,
-//                                x=already expired (abs ts 1), f=expires far in the future
+//                                x=already expired (abs ts 1), f=expires far in the future,
+//                                n<N>=value of exactly N bytes (unique per write)
 //   del:<cf>:<key>               plain Del
 //   vset:<cf>:<key>:<ver>:<kind> SetVersionedEntry (kind s|b)
 //   vdel:<cf>:<key>:<ver>        DeleteVersionedEntry
@@ -44,6 +46,15 @@ type Params struct {
 	BaseDir    string
 	ExtraMaint func(menu []string) []string // filter/extend the maintenance menu
 	Macro      bool                         // replace rotate/flush by the macro "rf" (rotate + flush all)
+	// RichSig: violation signatures carry the per-container version layout of the key in
+	// lookup order plus a mechanism class (see layoutSig) instead of the bare container classes.
+	RichSig bool
+	// CheckIter: the oracle also walks the DB iterator (forward and reverse, values
+	// materialised) and compares every yielded universe key with the model.
+	CheckIter bool
+	// MeasureGC: classify the effect of every gc step (file removed / live entries moved)
+	// into OpCount["gc-effect:*"].
+	MeasureGC bool
 }
 
 type ver struct {
@@ -63,9 +74,43 @@ type Inst struct {
 	pending string // implementation error seen during a step
 	pendDsc string
 	keys    []string // universe "cf/key"
+	hist    []write  // every successful client write, in order
+}
+
+type write struct {
+	seq int
+	mk  string
+	ver uint64
+	val []byte // nil = tombstone
 }
 
 var dirSeq int
+
+var (
+	pointMu sync.Mutex
+	pointN  = map[string]int64{}
+)
+
+// countPoint is installed as dbh.H.OnPoint (when the caller did not install one): it counts
+// how often the value-log GC hook points were passed (non-vacuity evidence for GC steps).
+func countPoint(name string) {
+	if strings.HasPrefix(name, "vlog.") {
+		pointMu.Lock()
+		pointN[name]++
+		pointMu.Unlock()
+	}
+}
+
+// PointCounts returns how often each vlog.* hook point was passed in this process.
+func PointCounts() map[string]int64 {
+	pointMu.Lock()
+	defer pointMu.Unlock()
+	out := map[string]int64{}
+	for k, v := range pointN {
+		out[k] = v
+	}
+	return out
+}
 
 // OpCount counts applied (state-changing) operations by class, for coverage reporting.
 var OpCount = map[string]int64{}
@@ -78,6 +123,9 @@ func New(p *Params) seqmc.Instance {
 		panic(err)
 	}
 	h, err := dbh.Open(dir, p.Cfg)
+	if h != nil && h.OnPoint == nil {
+		h.OnPoint = countPoint
+	}
 	in := &Inst{P: p, H: h, dir: dir, model: map[string]map[uint64]ver{}}
 	if err != nil {
 		in.pending, in.pendDsc = "open-failed", err.Error()
@@ -165,6 +213,19 @@ func (in *Inst) value(kind string) []byte {
 	case "e":
 		return []byte{}
 	}
+	if strings.HasPrefix(kind, "n") {
+		// exactly N bytes, unique per write (prefix) and position-dependent filler so that a
+		// truncated, shifted or mixed-up value never compares equal
+		size, err := strconv.Atoi(kind[1:])
+		if err != nil || size < 8 {
+			panic("bad kind " + kind)
+		}
+		v := []byte(fmt.Sprintf("V%d|", n))
+		for i := 0; len(v) < size; i++ {
+			v = append(v, byte('a'+(i+n)%26))
+		}
+		return v[:size]
+	}
 	panic("bad kind " + kind)
 }
 
@@ -173,7 +234,15 @@ const farFuture = uint64(1) << 40
 func (in *Inst) Apply(op string) (bool, error) {
 	if !isClient(op) {
 		in.nMaint++
+		var gcBefore string
+		isGC := in.P.MeasureGC && strings.HasPrefix(op, "gc:")
+		if isGC {
+			gcBefore = in.vlogAndMem()
+		}
 		changed, err := in.H.Maint(op)
+		if isGC && in.H.DB != nil {
+			in.noteGC(op, gcBefore, err)
+		}
 		var ie *dbh.ImplError
 		if err != nil {
 			if errors.As(err, &ie) {
@@ -226,11 +295,13 @@ func (in *Inst) Apply(op string) (bool, error) {
 		}
 		if err == nil {
 			in.model[mk][math.MaxUint64] = ver{in.seq, val, exp}
+			in.hist = append(in.hist, write{in.seq, mk, math.MaxUint64, val})
 		}
 	case "del":
 		err = db.DelCF(cf, key)
 		if err == nil {
 			in.model[mk][math.MaxUint64] = ver{in.seq, nil, 0}
+			in.hist = append(in.hist, write{in.seq, mk, math.MaxUint64, nil})
 		}
 	case "vset":
 		v, _ := strconv.ParseUint(f[3], 10, 64)
@@ -241,6 +312,7 @@ func (in *Inst) Apply(op string) (bool, error) {
 		err = db.SetVersionedEntry(cf, key, v, val, 0)
 		if err == nil {
 			in.model[mk][v] = ver{in.seq, val, 0}
+			in.hist = append(in.hist, write{in.seq, mk, v, val})
 		}
 	case "vdel":
 		v, _ := strconv.ParseUint(f[3], 10, 64)
@@ -250,6 +322,7 @@ func (in *Inst) Apply(op string) (bool, error) {
 		err = db.DeleteVersionedEntry(cf, key, v)
 		if err == nil {
 			in.model[mk][v] = ver{in.seq, nil, 0}
+			in.hist = append(in.hist, write{in.seq, mk, v, nil})
 		}
 	}
 	if err != nil {
@@ -257,6 +330,48 @@ func (in *Inst) Apply(op string) (bool, error) {
 		in.pendDsc = fmt.Sprintf("%s returned %v", op, err)
 	}
 	return true, nil
+}
+
+// vlogAndMem fingerprints what a GC run can change: the value-log file sets and the
+// contents of the active memtable (where rewritten entries land).
+func (in *Inst) vlogAndMem() string {
+	files, _ := in.H.DB.VerifVlogFiles()
+	shape := in.H.DB.VerifLSM().VerifShape(false)
+	if i := strings.Index(shape, "\nimm["); i >= 0 {
+		shape = shape[:i]
+	} else if i := strings.Index(shape, "\nL"); i >= 0 {
+		shape = shape[:i]
+	}
+	return fmt.Sprintf("%v\x00%s", files, shape)
+}
+
+// noteGC classifies the effect of one GC step (non-vacuity evidence): did it remove the
+// file, did it move live entries into the active memtable.
+func (in *Inst) noteGC(op string, before string, err error) {
+	var b, f uint32
+	fmt.Sscanf(op, "gc:%d:%d", &b, &f)
+	after := in.vlogAndMem()
+	bf, af := strings.SplitN(before, "\x00", 2), strings.SplitN(after, "\x00", 2)
+	files, _ := in.H.DB.VerifVlogFiles()
+	removed := true
+	for _, x := range files[b] {
+		if x == f {
+			removed = false
+		}
+	}
+	moved := bf[1] != af[1]
+	switch {
+	case err != nil:
+		OpCount["gc-effect:error"]++
+	case removed && moved:
+		OpCount["gc-effect:moved-live+removed-file"]++
+	case removed:
+		OpCount["gc-effect:removed-file-only"]++
+	case moved:
+		OpCount["gc-effect:moved-live-file-kept"]++
+	default:
+		OpCount["gc-effect:none"]++
+	}
 }
 
 func opClass(op string) string {
@@ -305,13 +420,105 @@ func (in *Inst) Check() (string, string) {
 			}
 		}
 	}
+	if in.P.CheckIter {
+		for _, asc := range []bool{true, false} {
+			if sig, dsc := in.checkIter(asc); sig != "" {
+				return sig, dsc
+			}
+		}
+	}
 	return "", ""
+}
+
+// checkIter walks the DB iterator (values materialised) over everything and compares each
+// yielded universe key at the plain (max) version with the model: a yielded value must be
+// the model's live value, and every live model key must be yielded. Entries of other
+// versions / foreign keys (engine-internal records) are ignored. The iterator works on
+// internal keys and does not hide older versions, so only max-version items are judged.
+func (in *Inst) checkIter(asc bool) (string, string) {
+	api := "iter-fwd"
+	if !asc {
+		api = "iter-rev"
+	}
+	it := in.H.DB.NewIterator(&utils.Options{IsAsc: asc})
+	seen := map[string][][]byte{}
+	for it.Rewind(); it.Valid(); it.Next() {
+		item := it.Item()
+		if item == nil || item.Entry() == nil {
+			continue
+		}
+		e := item.Entry()
+		if e.Version != math.MaxUint64 {
+			continue
+		}
+		mk := cfName(e.CF) + "/" + string(e.Key)
+		seen[mk] = append(seen[mk], append([]byte(nil), e.Value...))
+	}
+	_ = it.Close()
+	for _, mk := range in.keys {
+		want, ok := in.model[mk][math.MaxUint64]
+		live := ok && want.val != nil && want.expires != 1
+		got := seen[mk]
+		where := func() string { return in.where(mk, math.MaxUint64, false) }
+		if !live {
+			if len(got) > 0 {
+				return fmt.Sprintf("%s-resurrected key=%s %s", api, mk, where()), fmt.Sprintf("%s yields %s = %q, model: not found (write #%d deleted/expired or none)", api, mk, got[0], want.seq)
+			}
+			continue
+		}
+		if len(got) == 0 {
+			return fmt.Sprintf("%s-lost key=%s %s", api, mk, where()), fmt.Sprintf("%s does not yield %s, model: %q (write #%d)", api, mk, want.val, want.seq)
+		}
+		for _, g := range got {
+			if !bytes.Equal(g, want.val) {
+				return fmt.Sprintf("%s-stale key=%s %s", api, mk, where()), fmt.Sprintf("%s yields %s = %q%s, model: %q (write #%d)", api, mk, g, in.whoWrote(mk, g), want.val, want.seq)
+			}
+		}
+	}
+	return "", ""
+}
+
+func cfName(cf kv.ColumnFamily) string {
+	switch cf {
+	case kv.CFDefault:
+		return "d"
+	case kv.CFLock:
+		return "l"
+	case kv.CFWrite:
+		return "w"
+	}
+	return "?"
+}
+
+// whoWrote names the write that produced val (values are unique per write).
+func (in *Inst) whoWrote(mk string, val []byte) string {
+	for _, w := range in.hist {
+		if w.mk == mk && w.val != nil && bytes.Equal(w.val, val) {
+			return fmt.Sprintf(" (write #%d @%s)", w.seq, verName(w.ver))
+		}
+	}
+	return " (no write produced this value)"
+}
+
+func verName(v uint64) string {
+	if v == math.MaxUint64 {
+		return "max"
+	}
+	return strconv.FormatUint(v, 10)
+}
+
+// where is the state-classification part of a violation signature.
+func (in *Inst) where(mk string, pv uint64, lookup bool) string {
+	if !in.P.RichSig {
+		return in.locate(mk)
+	}
+	return in.layoutSig(mk, pv, lookup)
 }
 
 // compare: plain=true → deletes/expired read as not-found; plain=false → GetVersionedEntry
 // returns the entry itself (a tombstone comes back as an entry with the delete bit, or not-found).
 func (in *Inst) compare(api, mk string, pv uint64, present bool, want ver, e *kv.Entry, err error, plain bool) (string, string) {
-	where := func() string { return in.locate(mk) }
+	where := func() string { return in.where(mk, pv, true) }
 	if err != nil && !errors.Is(err, utils.ErrKeyNotFound) {
 		return fmt.Sprintf("%s-error key=%s %s", api, mk, where()), fmt.Sprintf("%s(%s@%d) returned error %v", api, mk, pv, err)
 	}
@@ -336,7 +543,7 @@ func (in *Inst) compare(api, mk string, pv uint64, present bool, want ver, e *kv
 		return fmt.Sprintf("%s-lost key=%s %s", api, mk, where()), fmt.Sprintf("%s(%s@%d) = not found, model: %q (write #%d)", api, mk, pv, want.val, want.seq)
 	}
 	if !bytes.Equal(e.Value, want.val) {
-		return fmt.Sprintf("%s-stale key=%s %s", api, mk, where()), fmt.Sprintf("%s(%s@%d) = %q, model: %q (write #%d)", api, mk, pv, e.Value, want.val, want.seq)
+		return fmt.Sprintf("%s-stale key=%s %s", api, mk, where()), fmt.Sprintf("%s(%s@%d) = %q%s, model: %q (write #%d)", api, mk, pv, e.Value, in.whoWrote(mk, e.Value), want.val, want.seq)
 	}
 	return "", ""
 }
@@ -366,6 +573,151 @@ func (in *Inst) locate(mk string) string {
 		}
 	}
 	return "copies=" + strings.Join(out, ",")
+}
+
+type container struct {
+	class string // mem | imm | t | ing
+	level int    // -1 for memtables
+	vers  []uint64
+}
+
+// layoutSig (RichSig) renders where the versions of mk live, in point-lookup order, and
+// classifies the lookup situation for probe version pv:
+//
+//	probe=<pv> want=@<v> mech=<class> layout=mem@1|imm@3|L0:t@2+t@2|L6:ing@1+t@1
+//
+// Units (separated by "|") are what a point lookup consults one after the other, stopping
+// at the first unit with a hit: the active memtable, each immutable memtable newest first,
+// L0 as a whole (newest table first), then each level as a whole (ingest tables, then main
+// tables). mech=first-hit-unit-lacks-newest-version: the first unit holding any version <= pv
+// does not hold the model's answer (a newer container holds only older versions: out-of-order
+// version writes); mech=within-unit-or-tie: it does hold it (wrong choice inside the unit or
+// among equal versions); mech=phantom: the model has no version <= pv at all.
+func (in *Inst) layoutSig(mk string, pv uint64, lookup bool) string {
+	parts := strings.SplitN(mk, "/", 2)
+	cfn := map[string]int{"d": 0, "l": 1, "w": 2}[parts[0]]
+	needle := fmt.Sprintf("  %d/%q@", cfn, parts[1])
+	shape := in.H.DB.VerifLSM().VerifShape(false)
+	var cs []*container
+	var cur *container
+	for _, line := range strings.Split(shape, "\n") {
+		if m := reContainer.FindStringSubmatch(line); m != nil {
+			cur = &container{level: -1}
+			switch {
+			case m[1] == "mem":
+				cur.class = "mem"
+			case strings.HasPrefix(m[1], "imm"):
+				cur.class = "imm"
+			default:
+				fmt.Sscanf(m[1], "L%d.", &cur.level)
+				if strings.Contains(m[1], ".ing[") {
+					cur.class = "ing"
+				} else {
+					cur.class = "t"
+				}
+			}
+			cs = append(cs, cur)
+			continue
+		}
+		if cur != nil && strings.HasPrefix(line, needle) {
+			rest := line[len(needle):]
+			if i := strings.IndexByte(rest, ' '); i >= 0 {
+				rest = rest[:i]
+			}
+			v, _ := strconv.ParseUint(rest, 10, 64)
+			cur.vers = append(cur.vers, v)
+		}
+	}
+	// lookup units
+	var units [][]*container
+	var imms, l0 []*container
+	levels := map[int][]*container{}
+	maxLevel := 0
+	for _, c := range cs {
+		switch {
+		case c.class == "mem":
+			units = append(units, []*container{c})
+		case c.class == "imm":
+			imms = append(imms, c)
+		case c.level == 0:
+			l0 = append(l0, c)
+		default:
+			levels[c.level] = append(levels[c.level], c)
+			if c.level > maxLevel {
+				maxLevel = c.level
+			}
+		}
+	}
+	for i := len(imms) - 1; i >= 0; i-- {
+		units = append(units, []*container{imms[i]})
+	}
+	var rl0 []*container
+	for i := len(l0) - 1; i >= 0; i-- {
+		rl0 = append(rl0, l0[i])
+	}
+	units = append(units, rl0)
+	for l := 1; l <= maxLevel; l++ {
+		var ing, main []*container
+		for _, c := range levels[l] {
+			if c.class == "ing" {
+				ing = append(ing, c)
+			} else {
+				main = append(main, c)
+			}
+		}
+		units = append(units, append(ing, main...))
+	}
+	wantV, _, present := in.newestAtOrBelow(mk, pv)
+	mech := ""
+	var us []string
+	for _, u := range units {
+		var cstr []string
+		hit, hasWant := false, false
+		for _, c := range u {
+			if len(c.vers) == 0 {
+				continue
+			}
+			var vs []string
+			for _, v := range c.vers {
+				vs = append(vs, verName(v))
+				if v <= pv {
+					hit = true
+				}
+				if present && v == wantV {
+					hasWant = true
+				}
+			}
+			cstr = append(cstr, c.class+"@"+strings.Join(vs, ","))
+		}
+		if len(cstr) == 0 {
+			continue
+		}
+		name := strings.Join(cstr, "+")
+		if u[0].level >= 0 {
+			name = fmt.Sprintf("L%d:%s", u[0].level, name)
+		}
+		us = append(us, name)
+		if mech == "" && hit {
+			if hasWant {
+				mech = "within-unit-or-tie"
+			} else {
+				mech = "first-hit-unit-lacks-newest-version"
+			}
+		}
+	}
+	want := "none"
+	if present {
+		want = "@" + verName(wantV)
+	}
+	switch {
+	case !lookup:
+		mech = "merge"
+	case !present:
+		mech = "phantom"
+	case mech == "":
+		mech = "missing-everywhere"
+	}
+	return fmt.Sprintf("probe=%s want=%s mech=%s layout=%s", verName(pv), want, mech, strings.Join(us, "|"))
 }
 
 func (in *Inst) Key() string {
